@@ -31,14 +31,16 @@ def run():
     vs = {v["id"]: v["ok"] for v in payloads(run_tlc("Trace_C10", files={"c10.ndjson": ndjson([r1, r2])}, workers=2), "V ")}
     good &= expect("Trace_C10 (-7 // 2 recorded as -3)", vs["a"], vs["b"])
     # ---- Trace_C20: remove the read-lock acquisition before a table read
-    evs = [(1, "AutoRLock", ""), (1, "AutoRead", "symHashTable@readSymHash"), (1, "AutoRUnlock", ""), (2, "AutoLock", ""), (2, "AutoWrite", "strTable@writeSymHash"), (2, "AutoUnlock", "")]
+    evs = [(1, "AutoRLock", ""), (1, "AutoRead", "symHashTable@readSymHash"), (1, "AutoRUnlock", ""), (2, "AutoLock", ""), (2, "AutoWrite", "symHashTable@writeSymHash"), (2, "AutoWrite", "strTable@writeSymHash"), (2, "AutoUnlock", "")]
     def rows(es):
-        return [{"nproc": 2, "g": 0, "ev": "header", "tab": ""}] + [{"nproc": 0, "g": g, "ev": e, "tab": t} for g, e, t in es]
+        return [{"nproc": 2, "g": 0, "ev": "header", "tab": "", "var": ""}] + [{"nproc": 0, "g": g, "ev": e, "tab": t, "var": t.split("@")[0]} for g, e, t in es]
     def accepted(es):
         t = run_tlc("Trace_C20", files={"c20.ndjson": ndjson(rows(es))}, workers=1, prefix=("V ",))
         return any(s.startswith("V accepted") for s in t.lines)
     good &= expect("Trace_C20 (RLock event removed)", accepted(evs), accepted(evs[1:]))
     good &= expect("Trace_C20 (write under read lock)", accepted(evs), accepted(evs[:1] + [(1, "AutoWrite", "strTable@x")] + evs[2:]))
+    good &= expect("Trace_C20 (second table written in another critical section)", accepted(evs),
+                   accepted(evs[:5] + [(2, "AutoUnlock", ""), (2, "AutoLock", "")] + evs[5:]))
     # ---- Trace_C06: an existing fingerprint changes
     ok_rows = [{"id": "a", "snaps": [["h1", "h2"], ["h1", "h2", "h3"]]}, {"id": "b", "snaps": [["h1", "h2"], ["h1", "hX", "h3"]]}]
     vs = {v["id"]: v["broken"] for v in payloads(run_tlc("Trace_C06", files={"c06.ndjson": ndjson(ok_rows)}, workers=2), "V ")}
